@@ -138,6 +138,12 @@ AddAnAlias == \E i \in NN, t \in Strs(1) \cup Strs(2) : AddAlias(i, t)
 
 Next == AddBase \/ AddConst \/ AddShort \/ AddLong \/ AddAPrefixAlias \/ AddACollider \/ AddAnAlias
 Spec == Init /\ [][Next]_vars
+\* A definition the loader REFUSES (a substance one of whose properties does not evaluate, a unit whose text does not
+\* evaluate) is a stuttering step of this machine: [Next]_vars admits it, no state of TLC's graph is added by it.  The
+\* history leg of the C07 engine takes it in every second history (a refused substance whose property, input and output
+\* names are names of the query alphabet): every name must denote afterwards what it denoted in the state before, i.e.
+\* nothing a refused definition bound while it was being evaluated (Context::temporaries) may outlive the load.
+Refuse == UNCHANGED vars
 
 DbOrd(ord) == WithAlias(DbBase(ord))
 Db == DbOrd(Ident)
